@@ -242,8 +242,14 @@ def run_impl_one(query, inp, mode='json', extra_args=(), binary=None, timeout=20
 def run_impl_many(jobs, binary=None, timeout=20):
     """jobs: list of (query, input_bytes, mode, extra_args)"""
     with ThreadPoolExecutor(NPROC) as ex:
-        return list(ex.map(lambda j: run_impl_one(j[0], j[1], j[2], j[3] if len(j) > 3 else (),
+        outs = list(ex.map(lambda j: run_impl_one(j[0], j[1], j[2], j[3] if len(j) > 3 else (),
                                                   binary=binary, timeout=timeout), jobs))
+    # a slow or busy machine is not a hang: whatever ran out of time is run once more, alone, with five times the time
+    # (a run that really never ends still ends up as timed_out)
+    for k, (j, o) in enumerate(zip(jobs, outs)):
+        if o['timed_out']:
+            outs[k] = run_impl_one(j[0], j[1], j[2], j[3] if len(j) > 3 else (), binary=binary, timeout=timeout * 5)
+    return outs
 
 
 def run_model_many(case_lines):
